@@ -705,7 +705,14 @@ impl<'tcx> Cx<'tcx> {
                 if j > 0 {
                     out.push(',');
                 }
-                let fty = tcx.type_of(f.did).instantiate_identity().skip_norm_wip();
+                let raw = tcx.type_of(f.did).instantiate_identity().skip_norm_wip();
+                // evaluate constant expressions in the type (array lengths such as `MAX_K + 1`) where that is possible
+                let fty = tcx
+                    .try_normalize_erasing_regions(
+                        TypingEnv::post_analysis(tcx, did),
+                        tcx.type_of(f.did).instantiate_identity(),
+                    )
+                    .unwrap_or(raw);
                 let _ = write!(out, "[{},{}]", js(&f.name.to_string()), js(&self.ty_str(fty)));
             }
             out.push_str("]}");
